@@ -27,7 +27,7 @@ def gen_tree(rng, nmax, base=None, allow_newline=True):
         # never create a file where a directory of the same name is needed (file/dir clash: outside the domain)
         if any(k.startswith(rel + "/") or rel.startswith(k + "/") for k in t):
             continue
-        mt = rng.pick([0, 1, 1_000_000_000, 1_700_000_000, 32_503_680_000, rng.below(2_000_000_000)])
+        mt = rng.pick([0, 1, 1_000_000_000, 1_700_000_000, 10_000_000_000, rng.below(2_000_000_000)])
         ns = rng.pick([0, 0, 500_000_000, 999_999_999, 1])
         t[rel] = (rng.pick(CONTENT), mt, ns)
     return t
@@ -82,7 +82,8 @@ def read_tree(root):
 def tree_tok(tree, cid):
     if not tree:
         return "-"
-    return ";".join(f"{hexs(p)}={cid(v[0])}:{len(v[0])}:{v[1]}:{v[2]}" for p, v in sorted(tree.items()))
+    # component-wise path order, as the driver prints
+    return ";".join(f"{hexs(p)}={cid(v[0])}:{len(v[0])}:{v[1]}:{v[2]}" for p, v in sorted(tree.items(), key=lambda kv: kv[0].split("/")))
 
 
 def list_tok(xs):
@@ -193,12 +194,73 @@ def run(pid, tier, seed, rundir, model_run):
                     key = "second-run-resends" if m2 and m2.group(1) != "0" else "second-run-changes"
                     res["violations"].append((key, f"the immediate second run planned {m2.groups() if m2 else None} / changed a tree (rc {rc2})", dict(rep, second_stderr=err2[-300:])))
                 count("second-runs")
+    # ---- C15: `bisync --dry-run` changes nothing (trees, mtimes, recorded state) and prints exactly the plan
+    bi_ops, bi_impl, bi_reps = [], [], []
+    if pid == "C15":
+        import bb_bisync as BB
+        for hi in range(40 * (10 if thorough else 1)):
+            hops = BB.gen_history(rng, rng.range(2, 8))
+            with Sandbox("C15bi") as sb:
+                h = BB.Hist(sb)
+                hist_txt = []
+                for op in hops:
+                    if op[0] == "write":
+                        h.write(op[1], op[2], op[3]); hist_txt.append(f"write {op[1]} {op[2]}")
+                    elif op[0] == "delete":
+                        h.delete(op[1], op[2]); hist_txt.append(f"delete {op[1]} {op[2]}")
+                    elif op[0] == "both":
+                        h.write("A", op[1], op[2]); h.write("B", op[1], op[3]); hist_txt.append(f"write A,B {op[1]}")
+                    elif op[0] == "delboth":
+                        h.delete("A", op[1]); h.delete("B", op[1]); hist_txt.append(f"delete A,B {op[1]}")
+                    elif op[0] == "bisync":
+                        ta, tb, raw, trusted = h.observe()
+                        adir = os.path.join(sb.home, ".copia")
+                        def snap():
+                            out = {}
+                            for root in (h.A, h.B, adir):
+                                for d, _, files in os.walk(root):
+                                    for fn in files:
+                                        pth = os.path.join(d, fn)
+                                        st = os.stat(pth)
+                                        out[pth] = (open(pth, "rb").read(), st.st_mtime_ns)
+                            return out
+                        before = snap()
+                        rc, out, err, plan_n, conf_n, safe = h.bisync(dry=True)
+                        after = snap()
+                        rep = {"history": list(hist_txt) + ["bisync --dry-run"], "stdout": out[-500:], "rc": rc}
+                        if before != after:
+                            changed = sorted(set(before) ^ set(after)) + sorted(k for k in before if k in after and before[k] != after[k])
+                            key = "bisync-dry-run-wrote-archive" if any("/.copia/" in c for c in changed) else "bisync-dry-run-changed-a-tree"
+                            res["violations"].append((key, f"bisync --dry-run changed {changed[:4]}", rep))
+                        printed = []
+                        for ln in out.split("\n"):
+                            mm_ = re.match(r"^(\S+)\s+(.*)$", ln)
+                            if mm_ and not ln.startswith("(dry run)"):
+                                printed.append(f"{hexs(mm_.group(2))}:{mm_.group(1)}")
+                        da, db = BB.digests(ta), BB.digests(tb)
+                        arch_tok = "none" if trusted is None else BB.tree_tok(trusted)
+                        bi_ops.append(f"biplan {BB.tree_tok(da)} {BB.tree_tok(db)} {arch_tok}")
+                        bi_impl.append(";".join(printed) if printed else "-")
+                        bi_reps.append(rep)
+                        count("bisync-dry-runs")
+                        h.bisync()
+                        hist_txt.append("bisync")
     # ---- model
+    ops_all = ops + bi_ops
     with open(os.path.join(rundir, "ops.txt"), "w") as f:
-        f.write("\n".join(ops) + ("\n" if ops else ""))
+        f.write("\n".join(ops_all) + ("\n" if ops_all else ""))
+    if False:
+        pass
+    with open(os.path.join(rundir, "ops.txt"), "a") as f:
+        pass
     model = model_run(os.path.join(rundir, "ops.txt"))
     ndis = 0
     res["disagreements"] = []
+    for q, im, mo, rep in zip(bi_ops, bi_impl, model[len(ops):], bi_reps):
+        if im != mo:
+            ndis += 1
+            res["violations"].append(("bisync-dry-run-prints-ne-plan", f"bisync --dry-run printed {im[:200]} but the plan a real run performs from this state is {mo[:200]}", dict(rep, query=q[:800])))
+    model = model[:len(ops)]
     for k, (q, im, mo) in enumerate(zip(ops, impl, model)):
         mm = re.match(r"dest=(\S+) T:(\S+)\|S:(\d+)\|D:(\S+) ran=(\d)", mo or "")
         if not mm:
@@ -227,6 +289,6 @@ def run(pid, tier, seed, rundir, model_run):
     res.update(evaluations=len(ops), distinct_nontrivial=len({q for q in ops if q.count("=") >= 2}), n_disagreements=ndis,
                n_oracle_failures=len(res["violations"]),
                rule="trees of 0–9 files over 24 awkward names (spaces, quotes, backslash, $, globs, newline, tab, leading dash, unicode, shell metacharacters) × 7 directories; "
-                    "per-file destination state ∈ {absent, same size+mtime (sub-second differs), different size, different mtime, same size+mtime but other bytes}, stale extras; mtimes {0,1,1e9,1.7e9,year 3000,random} × sub-second parts; "
+                    "per-file destination state ∈ {absent, same size+mtime (sub-second differs), different size, different mtime, same size+mtime but other bytes}, stale extras; mtimes {0,1,1e9,1.7e9,year 2286 (the sandbox file system clamps later stamps),random} × sub-second parts; "
                     "flags over --delete, 0–2 --exclude patterns, --jobs {1,2,4,8}, --verbose; directions local/push/pull round-robin. Non-trivial: ≥ 2 files across both trees.")
     return res
